@@ -14,7 +14,9 @@ import (
 	"servitor/ansi"
 	"servitor/config"
 	"servitor/style"
+	"servitor/verifchk/docs"
 	"servitor/verifkit/ev"
+	"servitor/verifkit/gen"
 	"servitor/verifkit/term"
 )
 
@@ -208,6 +210,68 @@ func TestVerifC14(t *testing.T) {
 			c.R.Evaluations++
 			one(c, r, fns, j == i)
 		}
+	}
+	totalR := c.Share(c.Pick(1600, 20000))
+	for i := 0; i < totalR; i += 50 {
+		n := caseNo
+		caseNo++
+		if !c.Begin(n, fmt.Sprintf("rendered items %d..", i)) {
+			continue
+		}
+		c.R.Evaluations--
+		r := c.Rand(n, 1)
+		for j := i; j < i+50 && j < totalR; j++ {
+			renderedNeutral(c, r, j == i)
+		}
+	}
+}
+
+// Part 2: everything the renderers and items produce must be neutral at every line end, so that
+// any line-based cut (previews, vertical centring, status line) is safe.
+func renderedNeutral(c *ev.Ctx, r *rand.Rand, sample bool) {
+	seq := r.Intn(20000)
+	o := gen.DocOpts{MaxDepth: r.Intn(4), MaxLinks: r.Intn(8), MaxBlocks: 1 + r.Intn(4), NoHr: false, LongWords: r.Intn(3) == 0, Unknown: r.Intn(2) == 0, LabelSeq: &seq}
+	doc := gen.AnyDoc(r, o)
+	kind := []string{"post", "actor", "activity"}[r.Intn(3)]
+	var atts []any
+	var attLinks []gen.Link
+	if kind != "actor" && r.Intn(2) == 0 {
+		atts, attLinks = docs.Attachments(r, r.Intn(4), &seq)
+	}
+	it, err := docs.Build(r, doc, kind, atts, attLinks)
+	if err != nil {
+		return
+	}
+	d := map[string]any{"kind": kind, "markup": doc.Markup, "json": ev.Trunc(it.Raw, 800)}
+	for _, w := range []int{5 + doc.MaxIndent + r.Intn(30), 20 + doc.MaxIndent + r.Intn(100), 80} {
+		for _, sink := range []string{"String", "Preview"} {
+			var out string
+			w, sink := w, sink
+			if c.Guard("rendered:", d, func() {
+				if sink == "String" {
+					out = it.T.String(w)
+				} else {
+					out = it.T.Preview(w)
+				}
+			}) {
+				return
+			}
+			c.R.Evaluations++
+			sc := term.Parse(out)
+			if len(sc.LeakLines) > 0 {
+				c.Violation("rendered:leak:line-end:"+doc.Markup, fmt.Sprintf("%s(%d) of a %s (%s body) leaves an attribute active at the end of line %d: %q", sink, w, kind, doc.Markup, sc.LeakLines[0], ev.Trunc(term.LineText(sc.Lines[sc.LeakLines[0]]), 120)), d)
+				return
+			}
+			if sc.LeakAtEnd {
+				c.Violation("rendered:leak:string-end:"+doc.Markup, fmt.Sprintf("%s(%d) of a %s (%s body) ends with attributes still active: %s", sink, w, kind, doc.Markup, sc.EndState), d)
+				return
+			}
+			c.Count("rendered_strings_checked", 1)
+		}
+	}
+	c.Nontrivial("rendered|" + it.Raw)
+	if sample {
+		c.Sample(map[string]any{"part": "rendered items neutral at line ends", "kind": kind, "markup": doc.Markup, "json": ev.Trunc(it.Raw, 300)})
 	}
 }
 
